@@ -563,6 +563,11 @@ func oracle(sc scenario, x *gate.Exec, lg *gatedLog, got []delivery, size int, f
 		}
 	}
 	if sc.Continuous {
+		// a continuous scan carries on until it is stopped or cancelled: it never ends by itself (whatever it
+		// returns), except when it could not even learn the tree size at the start
+		if !stopped && !cancelled && !firstSTHFailed {
+			x.Violation("continuous-scan-ended-by-itself", "%v: Run/ScanLog returned (%v) although nobody stopped or cancelled it; %d entries delivered, log size %d", sc, runErr, len(got), size)
+		}
 		complete = false // ended by Stop/cancel; completeness is checked for the prefix below
 	}
 	missing := []int64{}
